@@ -54,7 +54,20 @@ func TestC01Large(t *testing.T) {
 			return rapid.Custom(func(t *rapid.T) []string { return genShortTarget(t, s, 70000) }).Example(s)
 		}
 	}
+	// n pairs of keys; every pair hangs below its own inner node that carries a step
+	pairs := func(n int, seed uint64) func() []string {
+		return func() []string {
+			base := randKeys(n, 4, seed)()
+			keys := make([]string, 0, 2*n)
+			for _, b := range base {
+				keys = append(keys, b+"step"+"\x10", b+"step"+"\x20")
+			}
+			return keys
+		}
+	}
 	specs := []spec{
+		{"pairs70000/filter/I32 (>65535 steps)", pairs(70000, 7), "I32", "distinct", OptSpec{0, 0, 0, 0}, ""},
+		{"pairs66000/complete/I32 (>65535 inner and leaf prefixes)", pairs(66000, 8), "I32", "distinct", OptSpec{0, 0, 0, 2}, "reload"},
 		{"rand8x70000/filter/I32", randKeys(70000, 8, 1), "I32", "distinct", OptSpec{0, 0, 0, 0}, ""},
 		{"rand8x70000/complete/I32/reload", randKeys(70000, 8, 2), "I32", "runs", OptSpec{0, 0, 0, 2}, "reload"},
 		{"rand6x70000/leaf/String16", randKeys(70000, 6, 3), "String16", "distinct", OptSpec{1, 0, 2, 0}, ""},
